@@ -1,6 +1,7 @@
 """C19 - Output files always match the current data and nothing unchanged is redone."""
 import copy
 import os
+import re
 import stat
 
 from harness.core import Check, Violation, short
@@ -30,12 +31,27 @@ ASSUMPTIONS = [
 EDGES = [0, 1, 2, 3]
 
 
+# how plots are named (the file names derive from it): names that end in characters of ".pdf" / ".tex" / ".csv" too
+NAME_STYLES = {"p": "p%d", "speed": "n%dspeed", "cdf": "n%dcdf", "_pdf": "n%d_pdf", "tex": "n%dtex", "csv": "v%dcsv", "png": "g%dpng"}
+_STYLE = ["p"]
+
+
+def pname(plot):
+    return NAME_STYLES[_STYLE[0]] % plot
+
+
+def plot_of(basename):
+    """the plot number of a file name made by pname"""
+    m = re.match(r"[a-z]+(\d+)", basename)
+    return int(m.group(1)) if m else None
+
+
 def hist_for(plot, version):
     return histogram(list(EDGES), [version + plot, 2 * version + 1, plot])
 
 
 def plot_context(plot, dup=None):
-    ctx = {"name": "p%d" % plot}
+    ctx = {"name": pname(plot)}
     if dup is not None:
         # a per-plot option of ToCSV given in the context
         ctx["output"] = {"duplicate_last_bin": dup}
@@ -49,7 +65,7 @@ def csv_text(plot, version, dup=None):
 
 
 def tex_text(tver, plot):
-    return "TEMPLATE v%d p%d %s" % (tver, plot, os.path.join("out", "p%d.csv" % plot))
+    return "TEMPLATE v%d %s %s" % (tver, pname(plot), os.path.join("out", "%s.csv" % pname(plot)))
 
 
 def write_template(tver):
@@ -122,7 +138,7 @@ def model_run(files, plots, versions, tver, settings, dups=None):
     -> written paths (by Write), invocation log, flags[plot][stage], created[plot]"""
     written, log, flags, created_by = [], [], {}, {}
     for plot, ver in zip(plots, versions):
-        base = os.path.join("out", "p%d" % plot)
+        base = os.path.join("out", pname(plot))
         created = []
         fl = {}
         ch, wrote = model_write(files, base + ".csv", csv_text(plot, ver, (dups or {}).get(str(plot))), settings["w1"], False, created)
@@ -165,8 +181,16 @@ def read_tree():
 
 
 def judge_history(case):
+    _STYLE[0] = case.get("names", "p")
+    try:
+        return _judge_history(case)
+    finally:
+        _STYLE[0] = "p"
+
+
+def _judge_history(case):
     plots, settings, runs = case["plots"], case["settings"], case["runs"]
-    classes = ["w1:" + settings["w1"], "w2:" + settings["w2"]]
+    classes = ["w1:" + settings["w1"], "w2:" + settings["w2"], "names:" + case.get("names", "p")]
     staleness_possible = False
     with instr.Sandbox("lena-c19-"):
         log_path = setup_sandbox()
@@ -179,7 +203,7 @@ def judge_history(case):
             for r, run in enumerate(runs):
                 # between runs: deleted files
                 for plot, kind in run.get("delete", []):
-                    p = os.path.join("out", "p%d.%s" % (plot, kind))
+                    p = os.path.join("out", "%s.%s" % (pname(plot), kind))
                     if os.path.exists(p):
                         os.remove(p)
                         model_files.pop(p, None)
@@ -234,7 +258,7 @@ def judge_history(case):
                             # False on the tex value it receives). When the flag is absent there, LaTeXToPDF decides
                             # by modification times and the unchanged tree redoes the pdf: then a stale artefact is
                             # another defect and keeps its own signature.
-                            tex_path = os.path.join("out", "p%d.tex" % pl)
+                            tex_path = os.path.join("out", "%s.tex" % pname(pl))
                             tex_vals = [v for v in taps.get("tex", []) if v[0] == tex_path]
                             tex_flag = tex_vals[0][1].get("output", {}).get("changed") if tex_vals else None
                             if not flag and r > 0 and tex_flag is False:
@@ -257,7 +281,7 @@ def judge_history(case):
                 if got_files != exp_files:
                     diff = sorted(set(got_files) ^ set(exp_files)) or sorted(p for p in got_files if got_files[p] != exp_files.get(p))
                     p0 = diff[0]
-                    plot = int(os.path.basename(p0).split(".")[0][1:]) if os.path.basename(p0).startswith("p") else None
+                    plot = plot_of(os.path.basename(p0))
                     sig = "missing-file" if p0 not in got_files else "unexpected-file" if p0 not in exp_files else "stale-or-wrong-content:" + p0.rsplit(".", 1)[1]
                     recorded(Violation(classify(sig, plot), "%s: %s is %r, from the current data and template it must be %r" % (
                         descr, p0, got_files.get(p0), exp_files.get(p0))))
@@ -266,15 +290,15 @@ def judge_history(case):
                 # 2. every yielded value names an existing file with the current content
                 for stage, ext in (("csv", "csv"), ("tex", "tex"), ("pdf", "pdf"), ("png", "png")):
                     names = sorted(v[0] for v in taps.get(stage, []))
-                    want = sorted(os.path.join("out", "p%d.%s" % (p, ext)) for p in plots)
+                    want = sorted(os.path.join("out", "%s.%s" % (pname(p), ext)) for p in plots)
                     if names != want:
                         raise Violation("yielded-file-names-differ", "%s: after %s the values name %s, expected %s" % (descr, stage, names, want))
-                if sorted(v[0] for v in out) != sorted(os.path.join("out", "p%d.png" % p) for p in plots):
+                if sorted(v[0] for v in out) != sorted(os.path.join("out", "%s.png" % pname(p)) for p in plots):
                     raise Violation("yielded-file-names-differ", "%s: final values %s" % (descr, short(out)))
                 # 3. nothing unchanged is redone: converters, and files opened for writing by Write
                 if sorted(got_log) != sorted(exp_log):
                     odd = sorted(set(got_log) ^ set(exp_log)) or sorted(got_log)
-                    plot = int(os.path.basename(odd[0].split()[1]).split(".")[0][1:])
+                    plot = plot_of(os.path.basename(odd[0].split()[1]))
                     recorded(Violation(classify("converter-invocations-differ", plot), "%s: converters ran %s, the rules give %s" % (descr, sorted(got_log), sorted(exp_log))))
                     model_files = exp_files
                     continue
@@ -292,7 +316,7 @@ def judge_history(case):
                         classes.append("write-created-a-file(flags-not-judged)")
                         continue
                     for stage in ("csv", "tex", "pdf", "png"):
-                        path = os.path.join("out", "p%d.%s" % (plot, stage))
+                        path = os.path.join("out", "%s.%s" % (pname(plot), stage))
                         tapped = [v for v in taps[stage] if v[0] == path]
                         flag = tapped[0][1].get("output", {}).get("changed")
                         if bool(flag) != exp_flags[plot][stage]:
@@ -342,7 +366,8 @@ def history_case(draw):
         d = draw(st.sampled_from([None, None, None, False, True]))
         if d is not None:
             dups[str(p)] = d
-    return {"plots": plots, "settings": settings, "runs": runs, "reuse": draw(st.sampled_from([False, False, True])), "dups": dups}
+    return {"plots": plots, "settings": settings, "runs": runs, "reuse": draw(st.sampled_from([False, False, True])), "dups": dups,
+            "names": draw(st.sampled_from(["p", "p"] + sorted(NAME_STYLES)))}
 
 
 def deletion_cases(tier):
